@@ -64,6 +64,31 @@ True, which print differently and are different cells of a file):
   * Lean: C01_write_cellwise / C01_write_cell_own_text (each written token is str of that cell's own value),
     C01_memo_write_sound (a memoised column equals the column iff-direction: key finer than the text),
     C01_equal_values_different_text_counterexample, C01_memo_by_equality_counterexample, C01_signed_zero_roundtrip.
+
+Round 6 (class: ONE output composed of parts rendered at DIFFERENT load states of the object - a method split in two, a
+helper extracted, statements re-ordered so that the lazy data load (or another step that settles state: the leap flag
+of a file without the field comes from the number of rows) runs AFTER a part that depends on it was rendered; visible
+only when the operation is the FIRST one that needs the data, and any observation - also the check's own snapshot -
+loads it):
+  * op `firstop`: every export / data read (to_file_string, write, save, to_mos, to_wea with and without hours,
+    to_dict, convert_to_ip + write, import_data_by_field, data properties) as the first data-loading operation of a
+    lazy EPW(path) in every pre-load state (nothing read, location / header text / is_leap_year / a header slot read),
+    nothing observed before it; files without the leap field (shipped los_angeles_no_leap_field.epw, synthetic 8784 and
+    8760 rows) and with Yes / No.  Required: the leap line written agrees with the number of rows written and the rows
+    are the file's; the answer equals the one of an object whose data was loaded first; the same object answers the
+    same a second time; afterwards the object is the one the loaded route gives.
+  * op `history`: no snapshot is taken of an object whose data is not loaded (the export itself loads it; the object
+    is compared with the freshly read reference afterwards); random histories also on files without the leap field.
+  * correspondence `obj`: histories on files without the leap field whose first data-loading step is write / save /
+    to_mos / to_dict / to_wea; the driver prints the leap field the model writes above the rows (the flag the body
+    settled), the harness the one in the text.
+  * Lean: C01_first_load_same_step / C01_first_load_same_answer (an operation that needs the data answers the same in
+    every load state), C01_first_write_header_from_loaded (leap field and slots of the written text are the loaded
+    object's; for a not-yet-loaded object the flag of the body), C01_header_before_load_leap /
+    C01_header_before_load_counterexample (the split variant `stepWriteHeaderFirst` writes the header-only flag and
+    differs from to_file_string exactly when the header field is not the flag of the rows).
+  * finding C01-to-mos-header-before-data-load (to_mos renders the header before the data is loaded: same class, in the
+    unchanged tree) + proposed fixes/C01_to_mos_load_data_first.patch.
 """
 import atexit
 from array import array
@@ -112,7 +137,10 @@ RULE = ('correspondence: full-size EPW texts (shipped files; synthetic files who
         'anchored functions counted as branch:* in the evidence.  Round 5: every non-id synthetic file holds, in each float '
         'column, 0.0 and -0.0 (equal values of different text) in both orders, adjacent, far apart and on the first / last '
         'row; set_values histories hold signed zeros and int next to the equal float; all "identical" comparisons are by '
-        'value, type and sign of zero; canonical cells are checked field for field')
+        'value, type and sign of zero; canonical cells are checked field for field.  Round 6: every export / data read as the '
+        'FIRST data-loading operation of a lazy EPW(path) in five pre-load states, nothing observed before it, on files '
+        'without / with the leap field (op firstop); object histories of the correspondence start with a write / export '
+        'on files without the leap field')
 TRUSTED_BASE = [
     'translator tools/extract/epw_fields.py: copies EPWFields._fields (value type, unit, missing) and derives '
     'point_in_time of each field\'s data type from datatype/*.py (compared with the live classes by op flags)',
@@ -704,6 +732,12 @@ def _fp(e):
             cols = 'units!'
     return 'h%dd%di%dl%sn%dc%s' % (e.is_header_loaded, e.is_data_loaded, e.is_ip,
                                    'Y' if lp is True else 'N' if lp is False else 'X', e._num_of_fields, cols)
+
+
+def _leap_written(text):
+    """Leap field of the header line a write put above the rows, as the driver prints it."""
+    t = text.split('\n')[4].strip().split(',')[1:2]
+    return 'Y' if t == ['Yes'] else 'N' if t == ['No'] else 'X'
 
 
 def _rows_hash(text):
@@ -1536,7 +1570,9 @@ def check_case(op, inp):
                 e.convert_to_si()
                 ip = False
                 continue
-            before = _snap(e)
+            # (no snapshot of an object whose data is not loaded yet: the export itself must be the operation that
+            # loads it; such an object is compared with the freshly read reference afterwards)
+            before = _snap(e) if e.is_data_loaded else _snap(ref)
             tol = 1e-9 if (ip or 'I' in ops[:j]) else 0.0
             if o == 'W':
                 out = e.to_file_string()
@@ -1557,6 +1593,8 @@ def check_case(op, inp):
                                         'sig': dict(sig, what='history_output')}
             elif o.startswith('F'):
                 k = int(o[1:])
+                if not e.is_data_loaded:      # (the failing write is injected into loaded data)
+                    e.dry_bulb_temperature
                 saved = e._data[k]._values.pop()
                 before = _snap_private(e)
                 try:
@@ -2744,10 +2782,11 @@ def _slot_of_op(op, cur):
     raise ValueError(op)
 
 
-def _run_obj_pair(spec, ctor, ops):
-    """Run a history on the real object and translate it for the model; returns (driver request, impl answer)."""
+def _run_obj_pair(spec, ctor, ops, base=None):
+    """Run a history on the real object and translate it for the model; returns (driver request, impl answer).
+    (`base`: text, header lines and leap flag when the caller knows them without reading the file with the code.)"""
     from ladybug.epw import EPW
-    base = _baseline(spec)
+    base = base or _baseline(spec)
     d = _tmpdir()
     twin, ptw = _header_only_epw(base['hdr'])
     try:
@@ -2813,7 +2852,7 @@ def _run_obj_pair(spec, ctor, ops):
                     (e.write if name == 'write_path' else e.save)(fp_)
                     with open(fp_) as f:
                         text = f.read()
-                res = 'ok%d:%d' % _rows_hash(text)
+                res = 'ok%d:%d' % _rows_hash(text) + _leap_written(text)
             elif name == 'write_fail':
                 k = op[1] % 35
                 toks.append('F:%d' % k)
@@ -2821,7 +2860,8 @@ def _run_obj_pair(spec, ctor, ops):
                     e.dry_bulb_temperature
                 saved = e._data[k]._values.pop()
                 try:
-                    res = 'ok%d:%d' % _rows_hash(e.to_file_string())
+                    text = e.to_file_string()
+                    res = 'ok%d:%d' % _rows_hash(text) + _leap_written(text)
                 finally:
                     e._data[k]._values.append(saved)
             elif name == 'wea':
@@ -2903,11 +2943,24 @@ def _corr_objhist(ctx):
     cases = [_fixed_hist(i) for i in ((1, 5) if ctx.quick and not ctx.searching else range(len(R3_FIXED_HIST)))]
     for j in range(ctx.n(1, 40)):
         cases.append(_gen_objhist(rng, j % 2, rng.randrange(3, 6 if ctx.quick else 12)))
+    # round 6: a file without the leap field, a write / export as the first operation that needs the data
+    # (the model prints the leap field it writes above the rows: the flag the body settled)
+    firsts = [[['write'], ['mos'], ['write']], [['hdr'], ['save'], ['write_fail', 6], ['write']], [['mos'], ['write_path']],
+              [['dict'], ['write']], [['wea', [0, 8783]], ['hdr'], ['write']], [['hdr'], ['ip'], ['write'], ['si'], ['save']]]
+    for j, ops in enumerate(firsts):
+        if not ctx.quick or ctx.searching or (ctx.seed % 2 == 1 and j == (0, 2, 3, 4)[ctx.seed // 2 % 4]):   # (quick: a short one, odd seeds)
+            nr = 8760 if (j + ctx.seed) % 4 == 3 else 8784
+            ops = [o if o[0] != 'wea' else ['wea', [0, nr - 1]] for o in ops][:None if not ctx.quick or ctx.searching else 2]
+            sp = {'leap': '', 'nrows': nr, 'mode': 'ids', 'seed': 60 + nr % 7}
+            t = synth_text(sp)          # (the leap flag of the file is known from the spec: the number of rows)
+            cases.append({'spec': sp, 'ctor': 'path', 'ops': ops,
+                          'base': {'text': t, 'hdr': [l.strip() for l in t.split('\n')[:8]], 'si': {'leap': nr == 8784}}})
+            ctx.count('obj_first_load:' + ops[0][0] + ':' + str(nr))
     req = mo = ''
     for h in cases:
         spec = dict(h['spec'], mode='ids')
         try:
-            req, io = _run_obj_pair(spec, h.get('ctor', 'path'), h['ops'])
+            req, io = _run_obj_pair(spec, h.get('ctor', 'path'), h['ops'], h.get('base'))
         except Exception as ex:
             req, io = None, 'err:' + err_name(ex) + ':' + str(ex)[:200]
         mo = drv.run([req])[0] if req else 'no-request'
@@ -3339,8 +3392,235 @@ def _check_leapweek(inp):
     return None
 
 
+# ---------------------------------------------------------------------------------------------
+# round 6: the operation that triggers the lazy load (op firstop)
+#
+# Class: an output is composed of parts that are rendered at DIFFERENT load states of one object - a refactor
+# (method split in two, helper extracted, statements re-ordered) moves the lazy load, or another step that settles
+# state, behind the rendering of a part that depends on it.  Visible only when (1) the operation is the FIRST one
+# that needs the hourly data - any earlier observation, also a snapshot taken by the check itself, loads it - and
+# (2) the file leaves something to the body: the leap flag of a file whose line 5 has none (8784 rows decide).
+# Closed by: every export / data read as the first data-loading operation of a lazy EPW(path) in every pre-load state
+# (nothing read | location read | header text read | is_leap_year read | a header slot read), NO observation before
+# it.  Required (statement: read-write-read identical, writing a fixed point, exports carry the same numbers and never
+# change the object): what is written says `Yes` exactly when 8784 rows are written and has the rows of the file; it
+# equals what the same operation gives on an object whose data was loaded first; the same operation a second time on
+# the same object gives the same again; afterwards the object is the one the loaded route gives.
+# Consumers of "load, then render": to_file_string / write / save, to_wea, to_mos, to_dict, convert_to_ip,
+# import_data_by_field, every data property.  Branches: to_file_string:data_not_loaded, to_dict:data_not_loaded,
+# _get_data_by_field:data_not_loaded, _import_data:header_loaded_before_body | header_not_loaded, _import_body:leap
+# flag absent (counted as branch:first_load:*).
+
+FIRST_STATES = ['fresh', 'location', 'header', 'leap', 'slot']
+FIRST_OPS = ['write', 'write_path', 'save', 'mos', 'wea', 'wea_hoys', 'dict', 'ip_write', 'ip', 'si', 'field:6', 'field:14',
+             'prop:dry_bulb_temperature', 'prop:global_horizontal_radiation', 'prop:years']
+_FIRST_REF = {}
+
+
+def _first_out(e, first, tag, n):
+    """Output of one operation as plain values."""
+    d = _tmpdir()
+    if first == 'write':
+        return e.to_file_string()
+    if first in ('write_path', 'save'):
+        fp = os.path.join(d, 'fo_%s.epw' % tag)
+        ret = e.write(fp) if first == 'write_path' else e.save(fp)
+        with open(fp) as f:
+            t = f.read()
+        os.remove(fp)
+        return t if ret == t else ('returned text differs from the file', ret[:200])
+    if first in ('wea', 'wea_hoys', 'mos'):
+        fp = os.path.join(d, 'fo_%s.%s' % (tag, first[:3]))
+        if first == 'mos':
+            e.to_mos(fp)
+        else:
+            e.to_wea(fp, None if first == 'wea' else [0, 1416, n - 1])
+        with open(fp) as f:
+            t = f.read()
+        os.remove(fp)
+        return t
+    if first == 'dict':
+        return e.to_dict()
+    if first in ('ip', 'si'):   # (the unit conversion itself as the first operation; no write)
+        if first == 'si':
+            e.convert_to_si()
+        elif not e.is_ip:
+            e.convert_to_ip()
+        return (tuple(e.header), 9 + len(e._data[6]), tuple(c.header.unit for c in e._data), e.is_leap_year)
+    if first == 'ip_write':
+        if not e.is_ip:
+            e.convert_to_ip()
+        ls = e.to_file_string().split('\n')
+        return (tuple(ls[:8]), len(ls), tuple(c.header.unit for c in e._data))
+    if first.startswith('field:'):
+        c = e.import_data_by_field(int(first[6:]))
+    else:
+        c = getattr(e, first[5:])
+    return (tuple(c.values), c.header.unit, c.header.analysis_period.is_leap_year, tuple(e.header))
+
+
+def _first_leap_clause(first, out, rows):
+    """What the statement fixes without any second object: the leap line above the rows agrees with their number,
+    and the rows written are as many as the file holds.  -> None | (required, observed)"""
+    want = 'Yes' if rows == 8784 else 'No'
+    if first in ('write', 'write_path', 'save') and isinstance(out, str):
+        ls = out.split('\n')
+        got = len([l for l in ls[8:] if l.strip()])
+        if got != rows:
+            return 'the %d rows of the file are written' % rows, '%d rows' % got
+        if ls[4].split(',')[1:2] != [want]:
+            return 'leap-year field %r above %d rows' % (want, rows), ls[4].strip()
+    elif first in ('ip_write', 'ip', 'si'):
+        if out[1] - 9 != rows:
+            return 'the %d rows of the file are written' % rows, '%d rows' % (out[1] - 9)
+        if out[0][4].split(',')[1:2] != [want]:
+            return 'leap-year field %r above %d rows' % (want, rows), out[0][4].strip()
+    elif first == 'mos':
+        ls = out.split('\n')
+        hd = [l for l in ls if l.startswith('#HOLIDAYS/DAYLIGHT SAVINGS')]
+        tab = [l for l in ls if l and not l.startswith('#') and not l.startswith('double')]
+        if len(tab) != rows:
+            return 'the %d rows of the file are written' % rows, '%d rows' % len(tab)
+        if len(hd) != 1 or hd[0].split(',')[1:2] != [want]:
+            return 'leap-year field %r above %d rows' % (want, rows), (hd or ['no such line'])[0].strip()
+    elif first == 'wea':
+        got = len([l for l in out.split('\n')[6:] if l.strip()])
+        if got != rows:
+            return 'the %d hours of the file are written' % rows, '%d lines' % got
+    elif first == 'dict':
+        if out.get('is_leap_year') != (rows == 8784):
+            return 'is_leap_year %s in the dictionary of a %d-row file' % (rows == 8784, rows), repr(out.get('is_leap_year'))
+    elif first.startswith(('field:', 'prop:')):
+        if len(out[0]) != rows or out[2] != (rows == 8784):
+            return ('%d values in a %s period' % (rows, 'leap-year' if rows == 8784 else 'common-year'),
+                    '%d values, is_leap_year %s' % (len(out[0]), out[2]))
+        if out[3][4].split(',')[1:2] != [want]:
+            return 'leap-year field %r in the header of the loaded object' % want, out[3][4].strip()
+    return None
+
+
+def _first_differ(a, b):
+    if isinstance(a, str) and isinstance(b, str):
+        la, lb = a.split('\n'), b.split('\n')
+        i = next((i for i, (x, y) in enumerate(zip(la, lb)) if x != y), min(len(la), len(lb)))
+        return 'line %d: %s vs %s (%d / %d lines)' % (i, _short(la[i] if i < len(la) else None),
+                                                      _short(lb[i] if i < len(lb) else None), len(la), len(lb))
+    if isinstance(a, dict) and isinstance(b, dict):
+        k = next((k for k in a if k not in b or a[k] != b[k]), None)
+        return 'key %r: %s vs %s' % (k, _short(a.get(k)), _short(b.get(k)))
+    if isinstance(a, tuple) and isinstance(b, tuple) and len(a) == len(b):
+        i = next(i for i, (x, y) in enumerate(zip(a, b)) if x != y)
+        return 'part %d: %s vs %s' % (i, _short(a[i]), _short(b[i]))
+    return '%s vs %s' % (_short(a), _short(b))
+
+
+def _check_firstop(inp):
+    """`first` is the first operation that needs the hourly data of a lazy EPW(path) brought to `state` without any
+    data read (and without any observation by the check)."""
+    from ladybug.epw import EPW
+    text = text_of(inp)
+    state, first = inp.get('state', 'fresh'), inp['first']
+    tl = text.split('\n')
+    rows = len([l for l in tl[8:] if l.strip()])
+    flag = tl[4].strip().split(',')[1:2]
+    sig = {'what': 'first_load', 'state': state, 'first': first.split(':')[0],
+           'leap_flag_in_file': flag in (['Yes'], ['No']), 'rows': rows}
+    key = json.dumps(inp.get('file') or inp['spec'], sort_keys=True)
+    if key not in _FIRST_REF:
+        _FIRST_REF.clear()
+        _FIRST_REF[key] = {'path': _write_bytes('first_%d.epw' % os.getpid(), text.encode('utf-8')), 'out': {}}
+    cache = _FIRST_REF[key]
+
+    def ref_out():
+        # the same operation on an object whose data is loaded before anything else (one object per operation that
+        # changes the unit system, one shared by the exports: they leave the object as it is - ops exports / history)
+        if first not in cache['out']:
+            if first in ('ip_write', 'ip') or 'ref' not in cache:
+                r = EPW.from_file_string(text)
+                r.import_data_by_field(0)
+                if first not in ('ip_write', 'ip'):
+                    cache['ref'] = r
+                    cache['view'] = _full_view(r)
+            else:
+                r = cache['ref']
+            cache['out'][first] = _first_out(r, first, 'ref', rows)
+        return cache['out'][first]
+
+    def bad(req, obs, **kw):
+        return {'required': '%s (%s as the first data-loading operation of EPW(path) after: %s)' % (req, first, state),
+                'observed': obs, 'sig': dict(sig, **kw)}
+    e = EPW(cache['path'])
+    try:
+        if state == 'location':
+            e.location
+        elif state == 'header':
+            e.header
+        elif state == 'leap':
+            e.is_leap_year
+        elif state == 'slot':
+            e.monthly_ground_temperature
+            e.comments_1
+        if e.is_data_loaded:
+            return None                 # (the header read loads the data in this tree: nothing lazy left to check)
+        out = _first_out(e, first, 'obj', rows)
+    except Exception as ex:
+        return bad('the operation answers', '%s: %s' % (type(ex).__name__, _short(str(ex))), part='raises')
+    cl = _first_leap_clause(first, out, rows)
+    if cl:
+        return bad(cl[0], cl[1], part='leap_line_vs_rows' if 'leap' in cl[0] else 'row_count')
+    want = ref_out()
+    if out != want:
+        return bad('the same answer as with the data loaded first', _first_differ(out, want), part='differs_from_loaded')
+    # (the text equals the one written with the data loaded first, whose read-back is op roundtrip's subject)
+    if inp.get('light'):
+        return None                     # (quick tier: the second answer and the object afterwards on one case per run)
+    try:
+        again = _first_out(e, first, 'obj2', rows)
+    except Exception as ex:
+        return bad('the operation answers a second time', '%s: %s' % (type(ex).__name__, _short(str(ex))), part='raises_second')
+    if again != out:
+        return bad('the same answer from the same object a second time', _first_differ(again, out), part='second_differs')
+    if first not in ('ip_write', 'ip'):
+        dd = _view_diff(cache['view'], _full_view(e))
+        if dd:
+            return bad('afterwards the object is the one read with the data loaded first', dd, part='object')
+    return None
+
+
+def _firstop_cases(ctx, rng, big):
+    los = {'file': 'los_angeles_no_leap_field.epw'}
+    flagless_leap = {'spec': _r4_spec(rng, '', 'canon', nrows=8784, year=rng.choice(['2016', '2023', '1900']))}
+    # fixed corpus (every run): the shipped file without the flag; write and MOS (recorded finding) as first operations
+    if big:
+        yield 'firstop', dict(los, state='fresh', first='write')
+    yield 'firstop', dict(los, state='location', first='mos')
+    pairs = [(s, f) for s in FIRST_STATES for f in FIRST_OPS if (s, f) not in (('fresh', 'write'), ('location', 'mos'))]
+    rng.shuffle(pairs)
+    if not big:
+        # every consumer of "load, then render" in every run (to_file_string / to_wea / to_dict / convert_to_ip /
+        # _get_data_by_field; to_mos above), its siblings and the pre-load states in turn over the seeds; the second
+        # answer and the object afterwards are asked of the write
+        sd = ctx.seed
+        yield 'firstop', dict(los, state=['fresh', 'location', 'header', 'leap', 'slot'][sd % 5] if sd % 2 else 'fresh',
+                              first=['write', 'write_path', 'save'][sd % 3], **({} if sd % 2 == 0 else {'light': True}))
+        for j, f in enumerate(('wea', 'dict',
+                               ['field:6', 'ip', 'wea_hoys', 'si', 'prop:dry_bulb_temperature', 'ip', 'field:14', 'wea_hoys',
+                                'si', 'prop:years', 'ip', 'prop:global_horizontal_radiation'][sd % 12])):
+            yield 'firstop', dict(los, state=FIRST_STATES[(sd + j) % 5], first=f, light=True)
+        return          # (synthetic files without the flag: thorough tier and every search)
+    n = 14 if ctx.quick else 40
+    for s, f in [(rng.choice(FIRST_STATES), f) for f in FIRST_OPS] + pairs[:n]:      # (every consumer, then a sample)
+        yield 'firstop', dict(los, state=s, first=f)
+    for s, f in pairs[n:n + n // 2] + [('fresh', 'write'), ('header', 'save'), ('leap', 'mos')]:
+        yield 'firstop', dict(flagless_leap, state=s, first=f)
+    others = [_r4_spec(rng, '', 'canon', nrows=8760, year='2016'), _r4_spec(rng, 'Yes', 'ids'), _r4_spec(rng, 'No', 'noncanon')]
+    for j, sp in enumerate(others):
+        for s, f in pairs[-(3 if ctx.quick else 6) * (j + 1):][:3 if ctx.quick else 6] + [('fresh', 'write')]:
+            yield 'firstop', {'spec': sp, 'state': s, 'first': f}
+
+
 _R3_OPS = {'objhist': _check_objhist, 'locdict': _check_locdict, 'order': _check_order, 'ctors': _check_ctors,
-           'alias': _check_alias, 'dictmin': _check_dictmin, 'leapweek': _check_leapweek}
+           'alias': _check_alias, 'dictmin': _check_dictmin, 'leapweek': _check_leapweek, 'firstop': _check_firstop}
 
 
 def _r3_oracle_cases(ctx):
@@ -3348,7 +3628,7 @@ def _r3_oracle_cases(ctx):
     big = ctx.searching or not ctx.quick
     for a in R3_LOCS:
         yield 'locdict', {'loc': a}
-    for _ in range(20 if not big else 300):
+    for _ in range(8 if not big else 300):
         yield 'locdict', {'loc': _rand_loc(rng)}
     n_hist = 1 if not big else (20 if ctx.quick else 60)      # (a search after a broken tie in the quick tier: 20)
     for i in range(len(R3_FIXED_HIST)):
@@ -3361,6 +3641,8 @@ def _r3_oracle_cases(ctx):
             yield 'objhist', {'spec': _r3_spec(0), 'ctor': 'string', 'final': False,
                               'ops': [['write'], ['loc_attr', nm, v], ['write']]}
     for c in _r4_oracle_cases(ctx, rng, big):
+        yield c
+    for c in _firstop_cases(ctx, random.Random(rng.randrange(10 ** 9)), big):
         yield c
     for j in range(n_hist):
         yield 'objhist', _gen_objhist(rng, (j + ctx.seed) % 4, rng.randrange(3, 6 if not big else 12))
@@ -3411,7 +3693,7 @@ def _r4_oracle_cases(ctx, rng, big):
     # rows disagrees with the length (typical years are stitched from months of many years) or agrees with it
     flagless = [(8784, '2023'), (8760, '2016'), (8760, '0'), (8784, '1900'), (8760, '2000'), (8784, '2024'), (8760, '2017')]
     for j, (nr, yr) in enumerate(flagless):
-        if big or j == ctx.seed % 2 or j == 2 + ctx.seed % 5:
+        if big:      # (quick: the lazy routes of files without the flag are op firstop's)
             yield 'ctors', dict({'spec': _r4_spec(rng, '', 'canon', nrows=nr, year=yr), 'lazy': ['data_first', 'header_first'][j % 2]},
                                 **({} if big and not ctx.quick else {'routes': ['path']}))
     for j in range(1 if not big else (6 if ctx.quick else 18)):
@@ -3427,7 +3709,7 @@ def _r4_oracle_cases(ctx, rng, big):
             a['header'].update(two)
         yield 'alias', {'a': a, 'b': _r4_spec(rng, 'No', 'canon', hdr={'design': '2009'}),
                         'ctor': ['string', 'path', 'dict'][(j + ctx.seed) % 3], 'field': rng.choice([6, 0, 5, 14, 33, 20])}
-    drops = [list(OPTIONAL_DICT_KEYS), rng.sample(OPTIONAL_DICT_KEYS, 1)]
+    drops = [list(OPTIONAL_DICT_KEYS), rng.sample(OPTIONAL_DICT_KEYS, 1)][:2 if big or ctx.seed % 3 == 0 else 1]   # (quick: budget)
     if big:
         drops += [[k] for k in OPTIONAL_DICT_KEYS] + [rng.sample(OPTIONAL_DICT_KEYS, rng.randrange(2, 6)) for _ in range(3)]
     for j, drop in enumerate(drops):
@@ -3507,12 +3789,12 @@ def _oracle_cases(ctx):
             yield 'roundtrip', {'spec': s}
     yield 'history', {'spec': {'leap': 'No', 'mode': 'ids', 'seed': 1},
                       'ops': ['H', 'W', 'E', 'M', 'D', 'I', 'W', 'F6', 'B', 'E', 'S', 'W']}
-    if big or ctx.seed % 2:
+    if big or ctx.seed % 4 == 1:       # (quick: the first write of this file is op firstop's in every run)
         yield 'history', {'spec': 'los_angeles_no_leap_field.epw', 'ops': ['H', 'W', 'I', 'B', 'F14', 'W']}
-    for _ in range((1 - ctx.seed % 2) if not big else 25):
-        lp = rng.choice(['No', 'Yes'])
-        yield 'history', {'spec': {'leap': lp, 'mode': rng.choice(['ids', 'canon']), 'seed': rng.randrange(1000),
-                                   'eqv': rng.randrange(1000)},
+    for _ in range((1 if ctx.seed % 4 != 1 else 0) if not big else 25):
+        lp = rng.choice(['No', 'Yes', ''])          # ('': the body settles the leap flag, 8784 or 8760 rows)
+        yield 'history', {'spec': dict({'leap': lp, 'mode': rng.choice(['ids', 'canon']), 'seed': rng.randrange(1000),
+                                        'eqv': rng.randrange(1000)}, **({'nrows': rng.choice([8784, 8784, 8760])} if lp == '' else {})),
                           'ops': _rand_hist(rng, 5 if not big else 7)}
 
 
@@ -3545,6 +3827,11 @@ def _count_hist(ctx, cases):
             ctx.count('branch:from_dict:collections_as_' + inp.get('shape', 'list'))
         elif op == 'alias':
             ctx.count('alias_ctor:' + inp.get('ctor', 'string'))
+        elif op == 'firstop':
+            ctx.count('firstop_state:' + inp.get('state', 'fresh'))
+            ctx.count('firstop_first:' + inp['first'])
+            ctx.count('branch:first_load:' + ('leap_flag_absent' if 'file' in inp or inp['spec']['leap'] == '' else 'leap_flag_given'))
+            ctx.count('branch:first_load:header_' + ('not_loaded' if inp.get('state', 'fresh') == 'fresh' else 'loaded_before_body'))
         elif op == 'roundtrip' and 'spec' in inp:
             sp = inp['spec']
             nl = sp.get('nrows', 8784 if sp['leap'] == 'Yes' else 8760) + (1 if sp.get('blank', -1) >= 0 else 0)
@@ -3598,7 +3885,12 @@ LEVEL_TEXT = ('Machine-checked Lean 4 theorems over an executable model of epw.p
               'C01_write_cell_own_text); a memoised column is the plain column whenever the memo key is at least as fine as the '
               'text (C01_memo_write_sound) and Python equality is not such a key - 0.0 == -0.0, 1 == 1.0 - so a write memoised '
               'by value loses the sign of zero (C01_equal_values_different_text_counterexample, C01_memo_by_equality_counterexample, '
-              'C01_signed_zero_roundtrip). The field table is regenerated from epw.py on '
+              'C01_signed_zero_roundtrip). Load states: an operation that needs the hourly data gives the same answer and next state '
+              'whatever was loaded before (C01_first_load_same_step, C01_first_load_same_answer); the leap field and header slots '
+              'of a written text are those of the loaded object, for a not-yet-loaded object the flag the rows settle '
+              '(C01_first_write_header_from_loaded); a write that renders the header before the data load differs exactly on '
+              'files whose header field is not the flag of the rows (C01_header_before_load_counterexample). '
+              'The field table is regenerated from epw.py on '
               'every run and the model is compared with the real class on shipped and synthetic full-size files, '
               'header blocks and operation histories.')
 LEVEL_NOTE = ('Trusted: Lean kernel; axioms propext/Classical.choice/Quot.sound only; the field-table extractor; the '
